@@ -52,3 +52,67 @@ Proof.
     destruct (bid_from 0 (strict_of l) y <? bid_from 0 (strict_of l) x) eqn:L2; [unfold Tv, Tl; cbn [nth]; symmetry; exact T|].
     apply Z.ltb_ge in L1. apply Z.ltb_ge in L2. lia.
 Qed.
+
+(** ** the other extreme: the candidate is the strict ranking in the REVERSE order - every pair is inverted, B[1] per pair *)
+Lemma elems_strict l : elems (strict_of l) = l.
+Proof. unfold elems, strict_of. induction l as [|a l IH]; cbn [map concat app]; [reflexivity|]. rewrite IH. reflexivity. Qed.
+
+Lemma bid_strict_lt l : NoDup l -> forall k x y, In (x, y) (ordpairs l) ->
+  bid_from k (strict_of l) x < bid_from k (strict_of l) y.
+Proof.
+  induction l as [|a l IH]; intros Nd k x y H; [destruct H|].
+  inversion Nd as [|? ? Ha Nl]; subst. cbn [ordpairs] in H. apply in_app_or in H.
+  cbn [strict_of map bid_from]. rewrite !mem_single. fold (strict_of l).
+  destruct H as [H|H].
+  - apply in_map_iff in H as (z & E & Hz). inversion E; subst. rewrite Nat.eqb_refl.
+    destruct (Nat.eqb_spec y x) as [->|Ne]; [contradiction|].
+    pose proof (bid_strict_range l (k + 1) y Hz). lia.
+  - destruct (ordpairs_in l x y H) as (Hx & Hy & _).
+    destruct (Nat.eqb_spec x a) as [->|Nx]; [contradiction|]. destruct (Nat.eqb_spec y a) as [->|Ny]; [contradiction|].
+    apply IH; assumption.
+Qed.
+
+Lemma ordpairs_app_in {A} (l1 l2 : list A) p :
+  In p (ordpairs (l1 ++ l2)) -> In p (ordpairs l1) \/ In p (ordpairs l2) \/ (In (fst p) l1 /\ In (snd p) l2).
+Proof.
+  induction l1 as [|a l1 IH]; cbn [app ordpairs]; intros H; [right; left; exact H|].
+  apply in_app_or in H as [H|H].
+  - apply in_map_iff in H as (z & <- & Hz). apply in_app_or in Hz as [Hz|Hz].
+    + left. apply in_or_app. left. apply in_map. exact Hz.
+    + right. right. cbn [fst snd]. split; [left; reflexivity|exact Hz].
+  - destruct (IH H) as [H1|[H2|[H3 H4]]].
+    + left. apply in_or_app. right. exact H1.
+    + right. left. exact H2.
+    + right. right. split; [right; exact H3|exact H4].
+Qed.
+
+Lemma ordpairs_rev {A} (l : list A) x y : In (x, y) (ordpairs (rev l)) -> In (y, x) (ordpairs l).
+Proof.
+  induction l as [|a l IH]; cbn [rev ordpairs]; intros H; [exact H|].
+  apply ordpairs_app_in in H as [H|[H|[H1 H2]]].
+  - apply in_or_app. right. apply IH. exact H.
+  - destruct H.
+  - cbn [fst snd] in H1, H2. destruct H2 as [<-|[]]. apply in_or_app. left. apply in_map. apply in_rev. exact H1.
+Qed.
+
+Theorem reversed_against_strict s l : NoDup l ->
+  kemeny_spec s [strict_of l] (strict_of (rev l)) * 2 = b1 s * (Z.of_nat (length l) * (Z.of_nat (length l) - 1)).
+Proof.
+  intros Nd. unfold kemeny_spec. cbn [map]. unfold zsum at 1. cbn [fold_right]. rewrite Z.add_0_r.
+  unfold kemeny_one. rewrite elems_strict.
+  rewrite (zsum_map_ext _ (fun _ => b1 s)).
+  - rewrite zsum_const. pose proof (ordpairs_length (rev l)) as E. rewrite rev_length in E. rewrite <- E. ring.
+  - intros [x y] Hp. cbn [fst snd].
+    assert (Ndr : NoDup (rev l)) by (apply NoDup_rev; exact Nd).
+    pose proof (bid_strict_lt (rev l) Ndr 0 x y Hp) as Lc.
+    unfold placement_pen, bucket_id. rewrite (proj2 (Z.compare_lt_iff _ _) Lc).
+    pose proof (ordpairs_rev l x y Hp) as Hq. pose proof (bid_strict_lt l Nd 0 y x Hq) as Lr.
+    destruct (ordpairs_in l y x Hq) as (Hy & Hx & _).
+    pose proof (bid_strict_range l 0 x Hx) as Rx. pose proof (bid_strict_range l 0 y Hy) as Ry.
+    unfold status, stat, bucket_id.
+    destruct (bid_from 0 (strict_of l) x =? -1) eqn:E1; [apply Z.eqb_eq in E1; lia|].
+    destruct (bid_from 0 (strict_of l) y =? -1) eqn:E2; [apply Z.eqb_eq in E2; lia|].
+    cbn [negb andb].
+    destruct (bid_from 0 (strict_of l) x <? bid_from 0 (strict_of l) y) eqn:L1; [apply Z.ltb_lt in L1; lia|].
+    destruct (bid_from 0 (strict_of l) y <? bid_from 0 (strict_of l) x) eqn:L2; [reflexivity|apply Z.ltb_ge in L2; lia].
+Qed.
